@@ -568,6 +568,33 @@ pub fn run_c09(o: &Opts) -> Report {
             }
         }
     }
+    // the inline macros themselves (they strip all whitespace from the literal, then parse): fixed literals, each
+    // written densely and with spaces / tabs / newlines between tokens
+    macro_rules! nse_pair {
+        ($dense:literal, $spaced:literal) => {{
+            let want = canon_pr(&real_parse(&narsese::conversion::string::impl_enum::format_instances::FORMAT_ASCII, $dense));
+            let a = guard(|| narsese::enum_nse!($dense)).map(|v| canon_narsese(&v)).unwrap_or("PANIC".into());
+            let b = guard(|| narsese::enum_nse!($spaced)).map(|v| canon_narsese(&v)).unwrap_or("PANIC".into());
+            cx.rep.evaluations += 2;
+            cx.rep.hist.add("macro:enum_nse");
+            if a != want || b != want || want == "Err" || want == "PANIC" {
+                cx.fail("macro", "enum_nse! differs from parsing the same text", format!("{:?} / {:?}", $dense, $spaced), want.clone(), format!("{} / {}", a, b), None);
+            }
+            let la = guard(|| narsese::lexical_nse!($dense));
+            let lb = guard(|| narsese::lexical_nse!($spaced));
+            cx.rep.evaluations += 2;
+            if la.is_none() || la != lb {
+                cx.fail("macro", "lexical_nse! on the spaced literal differs from the dense one", format!("{:?} / {:?}", $dense, $spaced), format!("{:?}", la), format!("{:?}", lb), None);
+            }
+        }};
+    }
+    nse_pair!("<A-->B>.", " < A --> B > . ");
+    nse_pair!("<(&&,A,B)==><C<->D>>.%1;0.9%", "< ( && , A , B ) ==> < C <-> D > > . % 1 ; 0.9 %");
+    nse_pair!("$0.5;0.5;0.5$<{x}-->[y]>!:|:%1%", "$ 0.5 ; 0.5 ; 0.5 $ < { x } --> [ y ] > ! :|: % 1 %");
+    nse_pair!("(/,R,_,B)", "\t( /,\n R , _ ,  B )\n");
+    nse_pair!("<S{--P>?:!-5:", "<S  {--  P> ? :! -5 :");
+    nse_pair!("(--,<$x-->#y>)", "( -- , < $x --> #y > )");
+    nse_pair!("<(*,{SELF},ball)-->^pick>@", "<(*, {SELF}, ball) --> ^pick> @");
     let per = (o.n / 12).max(8);
     for fm in formats() {
         let g = term_gen_for(&fm, 2, 3);
